@@ -433,3 +433,64 @@ def run_X_size(rep, g):
                       why='same operand width on both sides')
     rep.floor('X-size', 'forms with an advertised size', n, 40)
     return n
+
+
+def run_D10(rep, g):
+    """D10: `ReaderAddress::add_sized` is the single primitive every monotone address advance goes through (line rows, unwind rows,
+    range/location lists): its Ok value must come from `checked_add` and be returned only when the bits above the address size are clear."""
+    from . import ctl as CT
+    from .arms import ArmSummarizer
+    rep.rule('D10', '<u64 as ReaderAddress>::add_sized: every Ok(..) it returns is computed by checked_add (never a wrapping/unchecked add) and is control '
+             'dependent on the `address & !mask != 0` test being false; an overflow of the 64-bit add is an error exit')
+    fn = g.fn('<u64 as read::reader::ReaderAddress>::add_sized')
+    summ = ArmSummarizer(g)
+    closure, _ = CT.control_deps(fn)
+    n = 0
+    for b in sorted(fn.reach):
+        for st in fn.stmts(b):
+            if st[0] != 'a' or st[1] != [0]:
+                continue
+            rv = st[2]
+            if not (rv[0] == 'agg' and rv[1][0] == 'adt' and rv[1][2] == 'Ok'):
+                continue
+            n += 1
+            ls = CT.leaves(fn, rv[2][0]) if rv[2] else set()
+            from_checked = any(x.startswith('checked_add()') or x.startswith('branch()') for x in ls) and not any('wrapping' in x or 'unchecked' in x for x in ls)
+            # the value must trace to checked_add: follow branch()/ok_or() wrappers
+            chain_ok = _traces_to(fn, rv[2][0], 'checked_add') if rv[2] else False
+            conds = [CT.condition_sig(fn, s) + '=' + '|'.join(sorted(l)) for s, l in closure.get(b, {}).items()]
+            masked = any(c.startswith('Ne(') and 'BitAnd' in c and c.endswith('=0') for c in conds)
+            rep.check('D10', 'add_sized|Ok#%d' % n, chain_ok and masked,
+                      'Ok value leaves %s; traces to checked_add: %s; controlling conditions %s' % (sorted(ls), chain_ok, conds), fn.loc(st[3]),
+                      why='checked 64-bit add, then the address-size mask test')
+    rep.floor('D10', 'Ok returns of add_sized', n, 1)
+    return n
+
+
+def _traces_to(fn, op, callee, depth=10):
+    """the operand's value is (a payload of) the result of `callee`, through copies, `?` (branch), ok_or/map_err and field projections"""
+    if depth <= 0 or op[0] not in ('c', 'm'):
+        return False
+    base = op[1][0]
+    ds = fn.defs.get(base, [])
+    if not ds:
+        return False
+    ok = True
+    for d in ds:
+        if d[1] == 'term':
+            f = d[2]['f']
+            nm = f.get('name')
+            if nm == callee:
+                continue
+            if nm in ('branch', 'ok_or', 'ok_or_else', 'map_err', 'from', 'into') and d[2]['a']:
+                if _traces_to(fn, d[2]['a'][0], callee, depth - 1):
+                    continue
+            ok = False
+        else:
+            rv = d[2]
+            if rv[0] == 'use' and _traces_to(fn, rv[1], callee, depth - 1):
+                continue
+            if rv[0] in ('ref', 'cfd') and _traces_to(fn, ['c', rv[1]], callee, depth - 1):
+                continue
+            ok = False
+    return ok
